@@ -723,7 +723,7 @@ func vfTreeProperty(ev *vfEvidence, persistent bool) func(t *rapid.T) {
 	return func(t *rapid.T) {
 		c := &vfTreeCase{Persistent: persistent}
 		if persistent {
-			c.MaxKeys = rapid.SampledFrom([]int{7, 7, 7, 15, 15, 31, 63, 127, 255}).Draw(t, "maxKeys")
+			c.MaxKeys = rapid.SampledFrom([]int{7, 7, 7, 15, 15, 31, 63, 127, 255, 4, 5, 9}).Draw(t, "maxKeys")
 		} else {
 			c.MaxKeys = rapid.SampledFrom([]int{4, 4, 4, 4, 5, 5, 6, 7, 7, 8, 9, 15, 16, 31, 63, 127, 255}).Draw(t, "maxKeys")
 		}
